@@ -225,6 +225,51 @@ func genC06(e *emitter, tier string, seed uint64) {
 				}
 			}
 		}
+		// ---- signatures whose DER integers sit on the padding boundaries: R = 00 80.. / 00 ff.. (padded), 7f.. (unpadded),
+		//      a 31-byte R or S, S = 7f..; found by stepping the lock time until the deterministic signature has the shape
+		if sh == 0 {
+			k := keys[3]
+			lock := append(rawPush(k.pubC), 0xac)
+			shapes := []struct {
+				name string
+				ok   func(r, s []byte) bool
+			}{
+				{"R=0080", func(r, s []byte) bool { return len(r) == 33 && r[1] == 0x80 }},
+				{"R=00ff", func(r, s []byte) bool { return len(r) == 33 && r[1] == 0xff }},
+				{"R=7f", func(r, s []byte) bool { return len(r) == 32 && r[0] == 0x7f }},
+				{"R31", func(r, s []byte) bool { return len(r) == 31 }},
+				{"S31", func(r, s []byte) bool { return len(s) == 31 }},
+				{"S=7f", func(r, s []byte) bool { return len(s) == 32 && s[0] == 0x7f }},
+				{"R31.0080", func(r, s []byte) bool { return len(r) == 32 && r[0] == 0x00 && r[1]&0x80 != 0 }},
+			}
+			for _, shp := range shapes {
+				for _, ht := range []byte{0x41, 0x01} {
+					txs := genSigTx(r, 1, 1, false)
+					var sig []byte
+					for lt := uint32(0); lt < 200000; lt++ {
+						txs.LockTime = lt
+						c := signFor(txs, 0, lock, sats, ht, k, false)
+						rl := int(c[3])
+						rr := c[4 : 4+rl]
+						ss := c[6+rl : len(c)-1]
+						if shp.ok(rr, ss) {
+							sig = c
+							break
+						}
+					}
+					if sig == nil {
+						e.note("der-boundary.not-found." + shp.name)
+						continue
+					}
+					for _, fl := range []int{0, fDERSig, fStrictEnc | fLowS, fDERSig | fNullFail, fAfterGenesis | fStrictEnc} {
+						if ht&0x40 != 0 {
+							fl |= fForkID
+						}
+						note("der-boundary."+shp.name, ixExecTx(e, fl, rawPush(sig), lock, txs, 0, sats))
+					}
+				}
+			}
+		}
 		// ---- SINGLE without a matching output (more inputs than outputs, checked index past the last output): FORKID signs
 		//      a zero hashOutputs, legacy signs the constant 1 — fresh signatures over the independent model's digest
 		if sh == 0 {
